@@ -324,6 +324,47 @@ def shutdown_grid(rng, count):
     return out
 
 
+def nested_abort_ties(rng, count):
+    """C05/C08/C11: the parent aborts (critical failure or timeout) in the very instant
+    a job of a nested scheduler completes, a few loop iterations before or after"""
+    out = []
+    while len(out) < count:
+        t = rng.choice([1, 2])
+        deep = rng.random() < 0.3
+        inner = S([J(), J(), J(0)] if rng.random() < 0.5 else [J(), J()])
+        nested = S([inner, J()]) if deep else inner
+        by_timeout = rng.random() < 0.35
+        shape = tree(S([J(), nested, J(0)]))
+        kind, parent, _ = shape
+        n = len(kind)
+        scheds = [i for i in range(n) if kind[i] == "sched"]
+        innermost = scheds[-1]
+        mem = [i for i in range(n) if parent[i] == innermost + 1]
+        dur, outc, crit, tmo = [0] * n, ["ok"] * n, [False] * n, [-1] * n
+        for i in range(n):
+            if kind[i] == "job":
+                dur[i] = rng.choice([t + 1, t + 2, t + 3])
+        dur[mem[0]] = t                      # completes in the instant of the abort
+        if len(mem) > 2:
+            dur[mem[2]] = rng.choice([0, 1])
+        first = [i for i in range(n) if kind[i] == "job" and parent[i] == 1][0]
+        if by_timeout:
+            tmo[0] = t
+        else:
+            dur[first], outc[first], crit[first] = t, "exc", True
+        for i in scheds[1:]:
+            crit[i] = rng.random() < 0.5
+        sc = _mk(rng, shape, dur=dur, out=outc, crit=crit, tmo=tmo,
+                 cdur=[rng.choice([0, 0, 1]) for _ in range(n)],
+                 win=[rng.choice([0, 0, 0, 2]) if kind[i] == "sched" else 0 for i in range(n)],
+                 pure=rng.random() < 0.2)
+        sc["harness"]["k"] = [rng.choice([0, 1, 2, 3, 4, 5]) for _ in range(n)]
+        if rng.random() < 0.6:
+            sc["harness"]["verbose"] = "keep"
+        out.append(sc)
+    return out
+
+
 def window_ties(rng, count):
     """C12/C07/C03: a full window, jobs queued behind it, running jobs that finish in
     the same instant but zero, one or two loop iterations apart, and successors
@@ -449,13 +490,13 @@ STRUCTURED = {
     "C02": [(tie_groups, 0.3), (simultaneous_failures, 0.15)],
     "C03": [(window_failures, 0.3), (deadlines, 0.1), (window_ties, 0.15)],
     "C04": [(critical_instants, 0.15), (deadlines, 0.2), (crit_chains, 0.15), (simultaneous_failures, 0.15)],
-    "C05": [(critical_instants, 0.4), (simultaneous_failures, 0.2)],
+    "C05": [(critical_instants, 0.35), (simultaneous_failures, 0.15), (nested_abort_ties, 0.15)],
     "C06": [(window_failures, 0.3), (simultaneous_failures, 0.1)],
     "C07": [(window_failures, 0.25), (tie_groups, 0.1), (critical_instants, 0.1), (window_ties, 0.15)],
-    "C08": [(deadlines, 0.5)],
+    "C08": [(deadlines, 0.45), (nested_abort_ties, 0.1)],
     "C09": [(forevers, 0.5)],
     "C10": [(crit_chains, 0.3), (nested_gap, 0.2)],
-    "C11": [(shutdown_grid, 0.3), (deadlines, 0.2), (nested_gap, 0.1)],
+    "C11": [(shutdown_grid, 0.3), (deadlines, 0.15), (nested_gap, 0.1), (nested_abort_ties, 0.1)],
     "C12": [(joins, 0.15), (small_perms, 0.15), (tie_groups, 0.15), (window_ties, 0.25)],
     "C13": [(shutdown_grid, 0.5)],
     "C14": [(window_failures, 0.15), (critical_instants, 0.15)],
